@@ -247,7 +247,7 @@ def long(case, ctx):
     with lentil_call("C05.long.normalize", "normalize_power"):
         amp = lentil.normalize_power(amp, case["power"])
     du = (wl * z * os_ / (dx * N[0]), wl * z * os_ / (dx * N[1]))
-    ctx.tag("output>16384" if max(N) > 16384 else None)
+    ctx.tag("output>16384" if max(N) > 16384 else None, f"kernel:2^{int(np.log2(max(N) * m))}" if max(N) * m >= 2**24 else None)
     ctx.tag(f"axis:{case['axis']}", f"os:{os_}", "kernel>4M" if max(N) * m > 2**22 else "kernel<=4M",
             "N_odd" if max(N) % 2 else "N_even")
     ctx.nontrivial_if(True)
@@ -262,6 +262,25 @@ def long(case, ctx):
     if abs(float(I.sum()) - p_in) > 1e-10 * p_in or abs(p_in - case["power"]) > 1e-12 * case["power"]:
         raise Violation("C05.long.total", f"full-period image of a {amp.shape} pupil (period {N}, oversample {os_}) carries "
                                           f"{float(I.sum()):.12e}, input power {p_in:.12e}")
+
+
+@st.composite
+def giant_case(draw, tier="quick"):
+    # four cases in five above 2^26 elements (1 GiB of complex128 for the matrix alone)
+    K = int(2 ** (draw(st.floats(26.0, 27.6)) if draw(st.integers(0, 4)) else draw(st.floats(24.0, 26.0))))
+    os_ = draw(st.sampled_from([1, 1, 2, 3]))
+    m = int(np.exp(draw(st.floats(np.log(60.0), np.log(float(min(int(np.sqrt(K)), 12000)))))))
+    Nr = max(int(np.ceil(m / os_)), K // m // os_ + draw(st.integers(0, 2))) * os_
+    n = draw(st.integers(2, 3))
+    Nc = (int(np.ceil(n / os_)) + draw(st.integers(0, 2))) * os_
+    return {"m": m, "n": n, "N": [Nr, Nc], "oversample": os_, "axis": draw(st.integers(0, 1)),
+            "seed": draw(st.integers(0, 2**31 - 1)), "power": draw(gen.pos_log(1e-3, 1e3))}
+
+
+hyp("C05", "giant", lambda tier: giant_case(tier),
+    "pupils of 60..12000 x 2..3 samples imaged over exactly one period with transform kernels of 2^24 .. 2^27.6 "
+    "elements (log-uniform, up to what the memory cap allows), long axis first and long axis second: the image carries the input power",
+    examples=(3, 5), budget_s=(400, 900), max_shards=2)(lambda case, ctx: [long(dict(case, axis=a), ctx) for a in (0, 1)] and None)
 
 
 # --- FFT grids of more than a million samples ---------------------------------------------------------------------
